@@ -251,4 +251,118 @@ theorem pullMetaEvents_no_panic (cs : CharSpec) (ext : Ext) (input : List Char) 
   · apply foldl_runMetaBlock_no_panic
     exact metaBlocks_wf _ _ _ 0 ⟨lexFrom_chain cs 0 input, lexFrom_escapedOK cs 0 input⟩
 
+/-! ### Blocks are contiguous pieces of the token stream -/
+
+theorem pullLine_split (ts : List Tok) (li : LineInfo) (rest : List Tok)
+    (h : pullLine ts = some (li, rest)) : ts = li.toks ++ rest := by
+  unfold pullLine at h
+  cases ts with
+  | nil => simp at h
+  | cons t0 tl =>
+    simp only at h
+    have hsplit := List.takeWhile_append_dropWhile (p := fun t : Tok => t.kind != .newline) (l := t0 :: tl)
+    split at h
+    · rename_i nl rest' heq
+      simp only [Option.some.injEq, Prod.mk.injEq] at h
+      rw [← h.1, ← h.2]
+      rw [heq] at hsplit
+      show _ = (_ ++ [nl]) ++ rest'
+      rw [List.append_assoc]
+      exact hsplit.symm
+    · rename_i heq
+      simp only [Option.some.injEq, Prod.mk.injEq] at h
+      rw [← h.1, ← h.2]
+      rw [heq] at hsplit
+      exact hsplit.symm
+
+theorem skipEmptyLines_split (fuel : Nat) (ts : List Tok) (li : LineInfo) (rest : List Tok)
+    (h : skipEmptyLines fuel ts = some (li, rest)) : ∃ pre, ts = pre ++ (li.toks ++ rest) := by
+  induction fuel generalizing ts with
+  | zero => simp [skipEmptyLines] at h
+  | succ fuel ih =>
+    unfold skipEmptyLines at h
+    split at h
+    · cases h
+    · rename_i li' rest' hp
+      have e1 := pullLine_split ts li' rest' hp
+      split at h
+      · obtain ⟨pre, hpre⟩ := ih rest' h
+        exact ⟨li'.toks ++ pre, by rw [e1, hpre]; simp⟩
+      · simp only [Option.some.injEq, Prod.mk.injEq] at h
+        rw [← h.1, ← h.2]; exact ⟨[], e1⟩
+
+theorem moreLines_split (fuel : Nat) (ts : List Tok) :
+    ∃ mid, ts = (moreLines fuel ts).1 ++ (mid ++ (moreLines fuel ts).2) := by
+  induction fuel generalizing ts with
+  | zero => exact ⟨[], by simp [moreLines]⟩
+  | succ fuel ih =>
+    unfold moreLines
+    split
+    · exact ⟨[], by simp⟩
+    · split
+      · exact ⟨[], by simp⟩
+      · rename_i li rest hp
+        have e1 := pullLine_split ts li rest hp
+        split
+        · exact ⟨li.toks, by simp [e1]⟩
+        · obtain ⟨mid, hmid⟩ := ih rest
+          refine ⟨mid, ?_⟩
+          simp only [List.append_assoc]
+          rw [← hmid]; exact e1
+
+theorem trimTrailingNewlines_split (l : List Tok) : ∃ suf, l = trimTrailingNewlines l ++ suf := by
+  have hsplit := List.takeWhile_append_dropWhile (p := fun t : Tok => t.kind == .newline) (l := l.reverse)
+  refine ⟨(l.reverse.takeWhile (fun t => t.kind == .newline)).reverse, ?_⟩
+  unfold trimTrailingNewlines
+  rw [← List.reverse_append, hsplit, List.reverse_reverse]
+
+theorem nextBlock_split (ts b rest : List Tok) (h : nextBlock ts = some (b, rest)) :
+    ∃ pre mid, ts = pre ++ (b ++ (mid ++ rest)) := by
+  unfold nextBlock at h
+  split at h
+  · cases h
+  · rename_i li r hs
+    obtain ⟨pre, hpre⟩ := skipEmptyLines_split _ ts li r hs
+    simp only at h
+    have hm : ∃ mid, r = (if li.isSingleLine = true then (([] : List Tok), r) else moreLines (r.length + 1) r).1 ++
+        (mid ++ (if li.isSingleLine = true then (([] : List Tok), r) else moreLines (r.length + 1) r).2) := by
+      split
+      · exact ⟨[], by simp⟩
+      · exact moreLines_split _ r
+    generalize (if li.isSingleLine = true then (([] : List Tok), r) else moreLines (r.length + 1) r) = m at h hm
+    by_cases he : (trimTrailingNewlines (li.toks ++ m.1)).isEmpty
+    · simp [he] at h
+    · simp only [he, Bool.false_eq_true, if_false, Option.some.injEq, Prod.mk.injEq] at h
+      obtain ⟨mid, hmid⟩ := hm
+      obtain ⟨suf, hsuf⟩ := trimTrailingNewlines_split (li.toks ++ m.1)
+      refine ⟨pre, suf ++ mid, ?_⟩
+      rw [← h.1, ← h.2, hpre]
+      have : li.toks ++ r = (li.toks ++ m.1) ++ (mid ++ m.2) := by
+        rw [List.append_assoc, ← hmid]
+      rw [this, hsuf]
+      simp only [List.append_assoc]
+      congr 2
+      rw [← hsuf]
+
+/-- every block the splitter produces from a run of adjacent tokens is a run of adjacent tokens -/
+theorem allBlocks_runAt (fuel : Nat) (ts : List Tok) (off : Nat) (h : RunAt off ts) :
+    ∀ b ∈ allBlocks fuel ts, ∃ o, RunAt o b := by
+  induction fuel generalizing ts off with
+  | zero => simp [allBlocks]
+  | succ fuel ih =>
+    unfold allBlocks
+    split
+    · simp
+    · rename_i b rest hn
+      obtain ⟨pre, mid, hsplit⟩ := nextBlock_split ts b rest hn
+      rw [hsplit] at h
+      obtain ⟨o1, h1⟩ := runAt_suffix h
+      intro b' hb'
+      simp only [List.mem_cons] at hb'
+      rcases hb' with rfl | hb'
+      · exact ⟨o1, runAt_prefix h1⟩
+      · obtain ⟨o2, h2⟩ := runAt_suffix h1
+        obtain ⟨o3, h3⟩ := runAt_suffix h2
+        exact ih rest o3 h3 b' hb'
+
 end Cook
